@@ -71,7 +71,8 @@ def ref_truth(ctx, r):
     if r.kind == "ext":
         m = ctx.st(r)["model"]
         if hasattr(m, "truth"):
-            return m.truth(ctx, r)
+            t = m.truth(ctx, r)
+            return t.t if isinstance(t, SV) else t
         return True
     if r.kind == "gen":
         return True
